@@ -186,7 +186,7 @@ void fam_closure(Ctx &c, bool corpus)
   }
   long long total = first[bases.size()];
   c.rep.bound = std::string(corpus ? "corpus closure: " : "RR grammar x single-fault closure: ") + std::to_string(bases.size()) + " base messages, " + std::to_string(total) +
-                " index slots = base + every truncation + every position x {00,01,3f,40,7f,80,c0,ff,orig^20,orig+1}" +
+                " index slots = base + every truncation + every truncation inside an RDATA with the record's RDLENGTH rewritten to match + every position x {00,01,3f,40,7f,80,c0,ff,orig^20,orig+1}" +
                 (corpus ? (c.thorough ? " (files > 4 KiB: substitutions over the first 512 bytes)" : " (files > 4 KiB: substitutions over the first 512 bytes, every 64th truncation)") : "");
   if (c.oracle == "C03")
     c.rep.bound = std::string(corpus ? "every corpus file that parses" : "every generator-valid base message of the RR grammar") + " (unmutated; " + std::to_string(bases.size()) +
